@@ -71,7 +71,8 @@ def boundary_len(code, etm):
 def describe(tier):
     n = 3 if tier == "quick" else 4
     return {
-        "rule": "L: the record histories of depth<=2 (thorough 3) spoken by two live OpenSSL endpoints for 17 negotiable classes; "
+        "rule": "R: the repository's 30 captures of real stacks, exported streams vs. the MAC-verified plaintext our anchored "
+                "receiver model recovers; L: the record histories of depth<=2 (thorough 3) spoken by two live OpenSSL endpoints for 17 negotiable classes; "
                 "A: all table suites x valid versions x EtM/hs-secret variants, fixed 10-record history (+16384 for class "
                 f"representatives); B: per class ({len(classes())} classes) every application-record history of depth<={n} over "
                 "{c,s} x {0,1,block-boundary,300}; C: handshake-shape deviations k<=2; D: 3 segmentations x IPv4/IPv6. "
@@ -141,6 +142,12 @@ def cases(tier, seed):
     # D
     for (v, code, etm, hs) in classes():
         yield {"layer": "D", "v": v, "suite": code, "etm": etm, "hs": hs, "seed": seed}
+    # R: the repository's own captures of real stacks (ground truth: the anchored model's receiver side, MAC-verified)
+    import glob
+    import os
+    for f in sorted(glob.glob(os.path.join(harness.SRC, "test", "testfiles", "*.pcapng")) +
+                    glob.glob(os.path.join(harness.SRC, "test", "incomplete_pcaps", "*.pcapng"))):
+        yield {"layer": "R", "file": os.path.relpath(f, harness.SRC), "seed": seed}
     # L: the same record histories spoken by two real OpenSSL endpoints (ground truth independent of our model)
     from ..model import live
     for li in range(len(live.LIVE_CLASSES)):
@@ -268,6 +275,43 @@ def run_case(case):
                         if skip_shape(s2):
                             continue
                         one(s2, {"layer": "C", "class": cname, "shape": {d1: str(val1), d2: str(val2)}})
+    elif layer == "R":
+        import os
+        from .. import validate
+        from ..model import opener, net
+        path = os.path.join(harness.SRC, case["file"])
+        data = open(path, "rb").read()
+        kl = open(os.path.join(harness.SRC, "test", "keylog.log")).read()
+        names = tls.table_suites()
+        res = harness.run_tlexport(data, kl, ["-p", "443", "44330", "5556"])
+        n += 1
+        sig = {"layer": "R", "file": case["file"]}
+        try:
+            an = scen.analyse(res)
+            opened = 0
+            for k, st in validate.tcp_streams_of(validate.read_capture(data)).items():
+                if not st["c"].startswith(b"\x16") or not st["s"].startswith(b"\x16"):
+                    continue
+                try:
+                    o = opener.open_connection(st, [l.strip() for l in kl.splitlines() if l.strip()], names)
+                except opener.OpenError:
+                    continue
+                opened += 1
+                proto, a, b = k
+                conv = [c for c in an["tcp"].values() if {c["client"], c["server"]} == {a, b}]
+                got = (conv[0]["c2s"], conv[0]["s2c"]) if conv else (b"", b"")
+                if got != (o["app"]["c"], o["app"]["s"]):
+                    fails.append({"kind": "stream_mismatch", "sig": sig,
+                                  "detail": f"exported {len(got[0])}+{len(got[1])} bytes, the capture carries {len(o['app']['c'])}+{len(o['app']['s'])}"})
+                elif o["app"]["c"] or o["app"]["s"]:
+                    nontriv.append(engine.jhash(sig))
+                    outcomes.add(scen.digest(res.out))
+                    if sample is None:
+                        sample = {"real_capture": case["file"], "c2s": len(got[0]), "s2c": len(got[1])}
+            if not opened:
+                count["real_capture_not_opened_by_model"] = 1
+        except scen.ExportError as e:
+            fails.append({"kind": e.kind, "sig": sig, "detail": e.detail})
     elif layer == "L":
         from ..model import live
         ver, cipher = live.LIVE_CLASSES[case["live"]]
